@@ -591,6 +591,16 @@ func c08Judge(c *ctx, t *c08Transfer, B int64, small bool) {
 			mr := int64(len(p.final)) - remaining
 			impl := fmt.Sprintf("done hs=%s acks=%s mr=%d ms=%d sent=%d final=%s", hstr, c08AcksStr(p.acks), mr, skipped, remaining, hx(p.final))
 			c.emit(nontrivial, "resume_exchange", impl, strconv.FormatInt(B, 10), strconv.Itoa(t.proto), stops, hx(p.src), hx(p.dst))
+			if t.proto >= 3 && len(p.dst) > 0 { // the arithmetic closed form (as used at the real block size)
+				good := 0
+				for _, a := range p.acks {
+					if a.Match {
+						good++
+					}
+				}
+				c.emit(nontrivial, "resume_abs", fmt.Sprintf("m=%d good=%d nacks=%d kok=1", skipped, good, len(p.acks)),
+					strconv.FormatInt(B, 10), strconv.Itoa(size), strconv.Itoa(cp), strconv.Itoa(nh))
+			}
 			if t.proto >= 3 { // the closed form of the agreed offset
 				c.emit(skipped > 0, "resume_agreed", strconv.FormatInt(skipped, 10), strconv.FormatInt(B, 10), hx(p.src), hx(p.dst))
 			}
@@ -655,8 +665,8 @@ func genResumeSweep(c *ctx) {
 		}
 	}
 	rels = plain
-	// quick: every relation once, spread over the 12 combinations (protocol 2 gets a
-	// smaller share); thorough: every relation under every combination
+	// quick: every relation under protocol 3 and under protocol 4, a quarter under protocol 2;
+	// thorough: every relation under every one of the 12 combinations
 	var transfers []*c08Transfer
 	mk := func(cb combo, rs []c08Rel) {
 		for i := 0; i < len(rs); i += perTransfer {
@@ -680,18 +690,23 @@ func genResumeSweep(c *ctx) {
 	} else {
 		perm := c.rng.Perm(len(rels))
 		buckets := make([][]c08Rel, len(combos))
-		v3 := []int{}
+		var v3, v4 []int
 		for i, cb := range combos {
-			if cb.proto >= 3 {
+			if cb.proto == 3 {
 				v3 = append(v3, i)
+			} else if cb.proto == 4 {
+				v4 = append(v4, i)
 			}
 		}
 		for i, k := range perm {
-			// 1 in 8 relations also goes to a protocol-2 combination
+			// every relation once under protocol 3 and once under protocol 4 (direction and
+			// encoding rotate), 1 in 4 also under a protocol-2 combination
 			b := v3[i%len(v3)]
 			buckets[b] = append(buckets[b], rels[k])
-			if i%8 == 0 {
-				b2 := (i / 8) % 4 // combos 0..3 are protocol 2
+			b = v4[(i+1+i/len(v4))%len(v4)]
+			buckets[b] = append(buckets[b], rels[k])
+			if i%4 == 0 {
+				b2 := (i / 4) % 4 // combos 0..3 are protocol 2
 				buckets[b2] = append(buckets[b2], rels[k])
 			}
 		}
